@@ -1,10 +1,110 @@
 import PyxModel.Sexp
+import PyxModel.Meta
 
-/-! driver commands of property C02 (stub: no command yet) -/
+/-!
+  driver commands of property C02 (also used by C09/C11/C16 through `decodeSchema`/`runOps`):
+
+  (meta (schema (ids "Id" none …)                                   -- own id attribute name per class index
+                (assoc "R1" srcKind ("k"…) srcMany srcCond "srcPhrase" tgtKind ("k"…) tgtMany tgtCond "tgtPhrase") …)
+        (refattrs (kind "attr") …)                                  -- referential attributes to read after each step
+        (ops (new k) (relate x y "R1" "phrase") (unrelate x y "R1" "") (delete x) …))
+  answer: one entry per op:
+    (outcome (pool…per class) ((assoc-src-entries) (assoc-tgt-entries))…per association (refvalues…))
+-/
 namespace Pyx.Driver.C02
-open Pyx Pyx.Sexp
+open Pyx Pyx.Sexp Pyx.Meta
+
+def asBool? : Sexp → Option Bool
+  | sym "T" => some true
+  | sym "F" => some false
+  | _ => none
+
+def strs (x : Sexp) : List String :=
+  match x with
+  | list xs => xs.filterMap asStr?
+  | _ => []
+
+def decodeAssoc : Sexp → Option AssocSpec
+  | list [sym "assoc", rel, sk, skeys, sm, sc, sp, tk, tkeys, tm, tc, tp] => do
+    let rel ← asStr? rel
+    let sk ← asNat? sk
+    let sm ← asBool? sm
+    let sc ← asBool? sc
+    let sp ← asStr? sp
+    let tk ← asNat? tk
+    let tm ← asBool? tm
+    let tc ← asBool? tc
+    let tp ← asStr? tp
+    pure { rel := rel, srcKind := sk, srcKeys := strs skeys, srcMany := sm, srcCond := sc, srcPhrase := sp,
+           tgtKind := tk, tgtKeys := strs tkeys, tgtMany := tm, tgtCond := tc, tgtPhrase := tp }
+  | _ => none
+
+structure Sch where
+  ids : List (Option String)
+  assocs : Schema
+
+def decodeSchema : Sexp → Option Sch
+  | list (sym "schema" :: list (sym "ids" :: ids) :: assocs) =>
+    some { ids := ids.map (fun x => match x with | str s => some s | _ => none),
+           assocs := assocs.filterMap decodeAssoc }
+  | _ => none
+
+def Sch.attrs (sc : Sch) : Attrs := { idName := fun k => (sc.ids.getD k none) }
+def Sch.hasId (sc : Sch) (k : Kind) : Bool := (sc.ids.getD k none).isSome
+
+def decodeOp (sc : Sch) : Sexp → Option Op
+  | list [sym "new", int k] => some (.new k.toNat (sc.hasId k.toNat))
+  | list [sym "relate", int x, int y, rel, ph] => do
+    pure (.relate x.toNat y.toNat (← asStr? rel) (← asStr? ph))
+  | list [sym "unrelate", int x, int y, rel, ph] => do
+    pure (.unrelate x.toNat y.toNat (← asStr? rel) (← asStr? ph))
+  | list [sym "delete", int x] => some (.delete x.toNat)
+  | _ => none
+
+def outSexp : Out → Sexp
+  | .ok => sym "ok"
+  | .relateExc => sym "RelateException"
+  | .unrelateExc => sym "UnrelateException"
+  | .unknownLink => sym "UnknownLinkException"
+  | .deleteExc => sym "DeleteException"
+
+def entries (n : Nat) (m : Inst → List Inst) : Sexp :=
+  list ((List.range n).filterMap fun x => if m x = [] then none else some (ofNats (x :: m x)))
+
+def optNat : Option Nat → Sexp
+  | some n => int n
+  | none => sym "none"
+
+def observe (sc : Sch) (refattrs : List (Kind × String)) (s : State) : List Sexp :=
+  let nk := sc.ids.length
+  let pools := list ((List.range nk).map fun k => ofNats (s.pool k))
+  let links := list ((List.range sc.assocs.length).map fun i =>
+    list [entries s.count (s.links i).src, entries s.count (s.links i).tgt])
+  let refs := list (refattrs.map fun (k, a) =>
+    list ((s.pool k).map fun x => optNat (getAttr sc.assocs sc.attrs s (2 * sc.assocs.length + 4) x a)))
+  [pools, links, refs]
+
+def runOps (sc : Sch) (refattrs : List (Kind × String)) (ops : List Sexp) : Sexp :=
+  let (_, outs) := ops.foldl (fun (acc : State × List Sexp) o =>
+    match decodeOp sc o with
+    | none => (acc.1, sym "bad-op" :: acc.2)
+    | some op =>
+      let r := step sc.assocs acc.1 op
+      (r.1, list (outSexp r.2 :: observe sc refattrs r.1) :: acc.2)) (init, [])
+  list outs.reverse
+
+def decodeRefattrs : Sexp → List (Kind × String)
+  | list (sym "refattrs" :: xs) => xs.filterMap fun x =>
+    match x with
+    | list [int k, a] => (asStr? a).map fun a => (k.toNat, a)
+    | _ => none
+  | _ => []
 
 def handle : List Sexp → Option Sexp
+  | [sym "meta", sch, refs, list (sym "ops" :: ops)] =>
+    match decodeSchema sch with
+    | some sc => some (runOps sc (decodeRefattrs refs) ops)
+    | none => some (sym "bad-schema")
   | _ => none
 
 end Pyx.Driver.C02
